@@ -6,7 +6,7 @@ LEVEL = "fault_enumeration"
 RUNS = {"quick": 600, "thorough": 20000}
 BUDGET_S = {"quick": 50, "thorough": 840}
 CHUNK = 5
-RULE = ("One evaluation = one execution of `gwf cancel`. Scenarios (mixed never-submitted/pending/running/finished jobs; selection by patterns or all with prompt) are sampled; per scenario the cancel command is re-executed with the k-th scheduler cancel (scancel/qdel/bkill) failing with F1/F2 for every k. Oracle: ids the scheduler was asked to cancel are a subset of the selected targets' latest ids and include every live one, no id twice; uncancellable targets are reported; afterwards none of the cancelled targets shows submitted/running and the next run follows M_plan.")
+RULE = ("One evaluation = one execution of `gwf cancel`. Scenarios (mixed never-submitted/pending/running/finished jobs; selection by patterns or all with prompt) are sampled; per scenario the cancel command is re-executed with the k-th scheduler cancel (scancel/qdel/bkill) failing with F1/F2/F4 (silent non-zero exit) for every k; on the local pool (no reply to cancel_task) only the fault-free command. Oracle: no job of a target that is neither selected nor downstream of a selected one gets cancelled; ids the scheduler was asked to cancel are a subset of the selected targets' latest ids and include every live one, no id twice; uncancellable targets are reported; afterwards none of the cancelled targets shows submitted/running and the next run follows M_plan.")
 PROFILE = dict(
     backends=["slurm", "slurm", "sge", "lsf", "local"],
     sizes=[1, 2, 3, 4, 5, 6, 8],
